@@ -26,6 +26,7 @@ def run(fx, rep, tier):
     rule_sq(fx, rep)
     rule_wrap(fx, rep)
     rule_sameidx(fx, rep)
+    rule_fill(fx, rep)
     rule_magic(fx, rep)
 
 
@@ -265,6 +266,74 @@ def rule_sameidx(fx, rep):
     rep.rule("C07-SAMEIDX", n, 6, ok, "index function shared by exactly filler and lookup")
 
 
+# ---- C07-FILL ------------------------------------------------------------------------------
+
+
+def rule_fill(fx, rep):
+    """The filler writes one entry for EVERY subset of the relevant-occupancy mask of every square: the blocker set it
+    indexes with is drawn from the repository's subset iterator over `generate_<piece>_occupancies(s)` (for s over all
+    squares), or - for an inlined subset walk - the starting subset is stored before the first step to the next one."""
+    ok = True
+    n = 0
+    for piece in ("rook", "bishop"):
+        fill = fx.one(f"magics::initialise_{piece}_attacks")
+        calls = fill.calls_to(f"magics::table_index_{piece}")
+        if len(calls) != 1:
+            rep.notes.append(f"C07-FILL: initialise_{piece}_attacks does not call table_index_{piece} exactly once; clause not decided")
+            continue
+        bb, t = calls[0]
+        if "pl" not in t["args"][1]:
+            continue
+        L = t["args"][1]["pl"]["l"]
+        for _ in range(6):
+            ds = fill.defs().get(L, [])
+            if len(ds) == 1 and ds[0][0] == "stmt" and ds[0][3]["rv"]["k"] == "use" and "pl" in ds[0][3]["rv"]["op"] and not ds[0][3]["rv"]["op"]["pl"].get("p"):
+                L = ds[0][3]["rv"]["op"]["pl"]["l"]
+            else:
+                break
+        ds = fill.defs().get(L, [])
+        sq = deep_strip(fill.expr(t["args"][0], expand_named=True, at=bb))
+        verdict, why = None, ""
+        if len(ds) == 1:
+            e = fill.expr({"l": L, "p": []}, expand_named=True, at=bb)
+            subs = find_calls(e, "SubsetsOf::new")
+            nxt = find_calls(e, "Iterator>::next")
+            if subs and nxt:
+                occ = find_calls(subs[0][2][0], f"generate_{piece}_occupancies")
+                same_sq = bool(occ) and deep_strip(occ[0][2][0]) == sq
+                full = any(isinstance(x, tuple) and x and x[0] == "constpath" and str(x[1]).endswith("Bitboard::FULL") for x in walk(sq))
+                verdict = bool(occ) and same_sq and full
+                why = f"subsets of `{show(subs[0][2][0])[:80]}` for square `{show(sq)[:60]}`"
+        elif len(ds) > 1:
+            # inlined walk: definitions of the subset variable that do not depend on it (the start) vs those that do (the step)
+            def depends_on_self(d):
+                if d[0] == "stmt":
+                    srcs = [x for o in fill.rvalue_operands(d[3]["rv"]) for x in fill.operand_locals(o)]
+                elif d[0] == "call":
+                    srcs = [x for a in d[2]["args"] for x in fill.operand_locals(a)]
+                else:
+                    return False
+                sl, _ = fill.slice_back(srcs) if srcs else (set(), None)
+                return L in sl or L in srcs
+            steps = [d for d in ds if depends_on_self(d)]
+            starts = [d for d in ds if d not in steps and d[0] in ("stmt", "call")]
+            if steps and starts:
+                reaching = fill.reaching_defs(L, bb)
+                verdict = any(d in reaching for d in starts)
+                why = "inlined subset walk: the starting subset " + ("reaches" if verdict else "never reaches") + " the store (every stored subset has already been stepped past the start)" * (not verdict)
+        if verdict is None:
+            rep.notes.append(f"C07-FILL: the blocker subsets of initialise_{piece}_attacks are produced in an unrecognised form; clause not decided")
+            continue
+        n += 1
+        rep.obligation(verdict)
+        rep.sample({"rule": "C07-FILL", "piece": piece, "form": why})
+        if not verdict:
+            ok = False
+            rep.violation("C07-FILL", f"C07-FILL/{piece}", f"initialise_{piece}_attacks does not store an entry for every subset of the relevant occupancy of every square ({why}): a lookup for a missing subset reads an empty (or another subset's) entry",
+                          {"fn": fill.name, "file": fill.file, "line": t.get("line")})
+    rep.rule("C07-FILL", n, 0, ok, "filler covers every blocker subset of every square")
+
+
 # ---- C07-MAGIC -----------------------------------------------------------------------------
 
 
@@ -410,6 +479,14 @@ def rule_magic(fx, rep):
 MG = "src/chess/movegen/tables/magics.rs"
 BB = "src/chess/bitboard.rs"
 MUTANTS = [
+    {"name": "rook filler skips the fully occupied subset (seed C07-2)", "expect": "C07-FILL/rook",
+     "edits": [("src/chess/movegen/tables/magics.rs", "        let occupancies = generate_rook_occupancies(s);\n\n        let occupancy_subsets = SubsetsOf::new(occupancies);\n\n        for blockers in occupancy_subsets {",
+                "        let occupancies = generate_rook_occupancies(s);\n\n        let mut blockers = occupancies;\n\n        while blockers.any() {\n            blockers = (blockers - Bitboard::new(1)) & occupancies;")]},
+    {"name": "benign: rook filler with a correct inlined descending subset walk", "benign": True,
+     "edits": [("src/chess/movegen/tables/magics.rs", "        let occupancy_subsets = SubsetsOf::new(occupancies);\n\n        for blockers in occupancy_subsets {\n            let idx = table_index_rook(s, blockers);\n\n            unsafe {\n                ATTACKS_TABLE[idx] = attacks::generate_rook_attacks(s, blockers);\n            }\n        }",
+                "        let mut blockers = occupancies;\n\n        loop {\n            let idx = table_index_rook(s, blockers);\n\n            unsafe {\n                ATTACKS_TABLE[idx] = attacks::generate_rook_attacks(s, blockers);\n            }\n\n            if blockers.is_empty() {\n                break;\n            }\n\n            blockers = (blockers - Bitboard::new(1)) & occupancies;\n        }")]},
+    {"name": "bishop filler enumerates subsets of the rook mask", "expect": "C07-FILL/bishop",
+     "edits": [("src/chess/movegen/tables/magics.rs", "        let occupancies = generate_bishop_occupancies(s);", "        let occupancies = generate_rook_occupancies(s);")]},
     {"name": "one rook offset moved past the table end", "expect": "C07-MAGIC/range",
      "edits": [(MG, "(0x80280013FF84FFFF, 10890)", "(0x80280013FF84FFFF, 87000)")]},
     {"name": "one rook magic changed (collisions)", "expect": "C07-MAGIC",
